@@ -25,6 +25,30 @@ WITNESSES = {
 }
 
 
+# hand-written boundary programs (run first, every tier): the break guard of the main loop,
+# break inside nested loops, an empty range, elif chains, a loop variable shadowing a later global
+CORPUS = [
+    {"pre": [("assign", "n0", "2"), ("assign", "i0", "0")],
+     "main": [("assign", "i0", "(i0 + 1)"), ("if", [("(i0 > 2)", [("break",)])], []), ("write", "i0")]},
+    {"pre": [("assign", "i0", "0")], "main": [("break",), ("write", "i0")]},
+    {"pre": [("assign", "i0", "0"), ("break",), ("write", "i0")], "main": None},
+    {"pre": [("assign", "i0", "0"), ("if", [("(i0 == 0)", [("break",)])], [])], "main": [("write", "i0")]},
+    {"pre": [("assign", "i0", "0")],
+     "main": [("for", "k0", "4", [("if", [("(k0 == 2)", [("break",)])], []), ("write", "(k0 + i0)")]),
+              ("assign", "i0", "(i0 + 10)")]},
+    {"pre": [("assign", "i0", "5"), ("assign", "w0", "0"),
+             ("while", "(w0 < 3)", [("for", "k0", "w0", [("write", "(k0 * 10 + w0)")]),
+                                    ("if", [("(w0 == 1)", [("aug", "i0", "-", "3")]), ("(w0 == 2)", [("aug", "i0", "*", "i0")])], [("write", '"else"')]),
+                                    ("assign", "w0", "(w0 + 1)")]),
+             ("write", "i0")], "main": None},
+    {"pre": [("assign", "i0", "1"), ("for", "k0", "0", [("write", "k0")]), ("for", "k0", "3", [("aug", "i0", "-", "k0")]),
+             ("assign", "k0", "7"), ("write", "(k0 + i0)")], "main": [("aug", "k0", "-", "2"), ("write", "k0"), ("sleep", "k0")]},
+    {"pre": [("assign", "i0", "3"), ("assign", "i1", "(i0 + 1)"), ("assign", "i0", "(i1 * 2)")],
+     "main": [("if", [("(i0 > 10)", [("assign", "i0", "(i0 - 7)")]), ("(i0 > 5)", [("assign", "i0", "(i0 - 1)")]), ("(i0 > 2)", [("write", '"mid"')])],
+               [("assign", "i0", "20")]), ("write", "i0")]},
+]
+
+
 PINS = {'"A0"': 14, '"A1"': 15, "4": 4}
 
 
@@ -293,6 +317,9 @@ def run_unit(ctx: C.Ctx):
     thorough = ctx.tier == "thorough"
     n = 900 if thorough else 120
     progs, feats = [], []
+    for cp in CORPUS:
+        progs.append({"funcs": [], "pre": list(cp["pre"]), "main": cp["main"], "input": "ar 14 300\nar 15 2\ndr 4 1\n"})
+        feats.append(("corpus",))
     for i in range(n):
         f = FEATURE_SETS[i % len(FEATURE_SETS)]
         g = progen.Gen(rng, f)
@@ -325,9 +352,27 @@ def run_unit(ctx: C.Ctx):
             if r["status"] in ("DIFF", "nocompile"):
                 ctx.known(f"{i}: {listed[i]['what']}")
     ir = ir_correspondence(ctx, progs, loops, res)
+    kinds = collections.Counter()
+
+    def count(body):
+        for st in body or []:
+            kinds[st[0]] += 1
+            if st[0] == "if":
+                for _, b in st[1]:
+                    count(b)
+                count(st[2])
+            elif st[0] in ("while", "for"):
+                count(st[-1])
+    for p in progs:
+        count(p["pre"])
+        count(p["main"])
+    distribution = {"statement_kinds": dict(kinds), "feature_sets": dict(collections.Counter("+".join(f) or "core" for f in feats)),
+                    "loop_passes": dict(collections.Counter(loops)), "with_main_loop": sum(1 for p in progs if p["main"] is not None),
+                    "constant_inputs": sum(1 for p in progs if len(const_inputs(p["input"])) == 3)}
     return {
-        "evaluations": n + ir["ir_cases"] + ir.get("exec_cases", 0), "programs_by_status": dict(stats), "ir_correspondence": ir,
+        "distribution": distribution,
+        "evaluations": len(progs) + ir["ir_cases"] + ir.get("exec_cases", 0), "programs_by_status": dict(stats), "ir_correspondence": ir,
         "distinct_nontrivial": len({s for s, r in zip(srcs, res) if r["status"] == "equal" and len(r["py"]) >= 3}),
         "samples": [srcs[0][len(progen.HEADER):], srcs[-1][len(progen.HEADER):]],
-        "rule": "seeded programs from harness/progen.py over 6 feature sets (core ints; +floats; +helper functions; +tuple/swap; all; first assignment inside branches), N in 0..3 loop passes, scripted analog/digital inputs; non-trivial = both sides ran and the common trace has >= 3 events",
+        "rule": "8 hand-written boundary programs (break guard, nested break, empty range, elif chain, shadowing loop variable) + seeded programs from harness/progen.py over 6 feature sets (core ints; +floats; +helper functions; +tuple/swap; all; first assignment inside branches), N in 0..3 loop passes, scripted analog/digital inputs (half of them constant per pin); every program: firmware trace vs CPython trace (oracle); programs without helper functions: IR of Lang.Transl.transl vs IR of the real parser; those with constant inputs additionally: extracted pexec vs CPython trace and extracted transl+cexec vs firmware trace (Lang.StmtExec), and the number of them inside the guard of C01_stmt_preserve_partial is recorded; non-trivial = both sides ran and the common trace has >= 3 events",
     }
